@@ -9,7 +9,7 @@ done
 python3-vt - <<'PY'
 import json, jsonschema, glob
 sch = json.load(open('/root/.vp/EVIDENCE.schema.json'))
-for f in sorted(glob.glob('/verif/evidence/*.json')):
+for f in sorted(x for x in glob.glob('/verif/evidence/*.json') if not x.endswith('.partial.json')):
     e = json.load(open(f))
     jsonschema.validate(e, sch)
     c = e['coverage']
